@@ -15,7 +15,7 @@ C17  Sampling utilities honour their proportionality and balance guarantees  (st
 """
 import ast
 
-from sa.astutil import oriented, dump, where, kwargs_of, walk_no_nested, is_const
+from sa.astutil import is_guard, oriented, dump, where, kwargs_of, walk_no_nested, is_const
 from sa.model import AnalysisError, body_nodoc
 from sa.order import enumerate_paths, Event, names
 from sa.vn import VN, Poly, parse_expr, VNUnknown
@@ -297,6 +297,16 @@ def check_tiled(prog, rep):
         return
     q, r = [e.id for e in dm.targets[0].elts]
     ns, no = [dump(x) for x in dm.value.args]
+    # whatever shape the tiling takes: a draw of the r left-over slots must say replace (numpy's default is WITH replacement)
+    for c_ in walk_no_nested(f.node):
+        if isinstance(c_, ast.Call) and isinstance(c_.func, ast.Attribute) and c_.func.attr == "choice":
+            kw_, _ = kwargs_of(c_)
+            sz_ = c_.args[1] if len(c_.args) > 1 else kw_.get("size")
+            rp_ = c_.args[2] if len(c_.args) > 2 else kw_.get("replace")
+            if sz_ is not None and dump(sz_) == r and rp_ is None:
+                rep.violate("R2-tiles", construct, "the %s left-over slots are drawn by %s with numpy's default replace=True: one option can take several of them while another gets "
+                            "none (options are no longer used within one of each other)" % (r, dump(c_)[:50]), where(f, c_), "replace=False", "default")
+                return
     nsv = defs.get(ns, [None])[0]
     nov = defs.get(no, [None])[0]
     if nov is None or dump(nov.value) != "len(%s)" % a:
@@ -414,8 +424,25 @@ def check_sus(prog, rep):
     # normalise straight-line prefix
     try:
         for st in body_nodoc(f.node):
-            if isinstance(st, ast.If):
+            if is_guard(st):
                 continue
+            if isinstance(st, ast.If):
+                rets = [x for x in ast.walk(st) if isinstance(x, ast.Return)]
+                if not rets:
+                    continue
+                # another way out of the function: what it returns must satisfy the same floor / ceiling clause
+                for rt in rets:
+                    v = rt.value
+                    tc = isinstance(v, ast.Call) and isinstance(v.func, ast.Name) and v.func.id == "tiled_choice"
+                    kw_, _ = kwargs_of(v) if isinstance(v, ast.Call) else ({}, [])
+                    rp_ = (v.args[2] if len(v.args) > 2 else kw_.get("replace")) if tc else None
+                    if tc and (rp_ is None or (isinstance(rp_, ast.Constant) and rp_.value is not False)):
+                        rep.violate("R3-sus", construct, "when %s the function returns %s: tiled_choice tiles only with replace=False and its default is replace=True, so this path is a "
+                                    "plain draw with replacement - an element can be drawn far more often than the ceiling of its expected count" % (dump(st.test)[:40], dump(v)[:50]),
+                                    where(f, rt), "the pointer walk (or tiled_choice(..., replace=False))", dump(v)[:50])
+                    else:
+                        rep.unrec("R3-sus", construct, "another return path (%s) is not the pointer walk: %s" % (dump(st.test)[:40], dump(v)[:50] if v is not None else "None"))
+                return
             if isinstance(st, (ast.For, ast.While)):
                 break
             vn.stmt(st)
